@@ -21,6 +21,7 @@ type traceView struct {
 	exits  map[int][]Event
 	first  map[int]int64 // first activity (enter) of a unit (group / seq) by walk idx
 	lastW  map[int]*ObjImg
+	fs     int64 // cached flushStart
 }
 
 func newTraceView(ix *index, tr []Event, plan int, final *PlanImg) *traceView {
@@ -79,14 +80,36 @@ func (v *traceView) lastTerminalWrite(obj int) int64 {
 	return 0
 }
 
-// flushStart: N of the first write of End's final flush (writeEverything): the last wPlan post write
-// that is followed only by writes. Activity comparisons ignore events at or after it.
+// flushStart: N of the first write of End's final flush (writeEverything). The flush writes every object
+// once and nothing is written after it, in whatever order the engine chooses: it is the longest suffix of
+// the write sequence in which no object is written twice. Activity comparisons ignore events at or after it.
 func (v *traceView) flushStart() int64 {
-	ws := v.writes[0]
-	if len(ws) == 0 {
-		return 1 << 62
+	if v.fs != 0 {
+		return v.fs
 	}
-	return ws[len(ws)-1].N
+	type w struct {
+		n   int64
+		obj int
+	}
+	var all []w
+	for obj, ws := range v.writes {
+		for _, e := range ws {
+			if v.release == 0 || e.N < v.release { // writes after the release are judged by C08, they are not the flush
+				all = append(all, w{e.N, obj})
+			}
+		}
+	}
+	sort.Slice(all, func(i, j int) bool { return all[i].n < all[j].n })
+	v.fs = 1 << 62
+	seen := map[int]bool{}
+	for i := len(all) - 1; i >= 0; i-- {
+		if seen[all[i].obj] {
+			break
+		}
+		seen[all[i].obj] = true
+		v.fs = all[i].n
+	}
+	return v.fs
 }
 
 // activity of a unit: enter events of its actions + its own non-flush writes
